@@ -85,6 +85,10 @@ type bundle struct {
 	w    *world
 	reps []*replica
 	tmp  string
+	// mapOrder: fix Go's map iteration start offset per replica and block (only
+	// meaningful in a single-goroutine process built with the runtime overlay).
+	mapOrder bool
+	blockNo  int
 }
 
 func (w *world) newBundle(specs []rspec) (*bundle, error) {
@@ -314,8 +318,15 @@ func (b *bundle) exec(l *letter) (*blockOutcome, error) {
 			out.results[i] = &chain.Result{Path: paths[i], Panic: "no proposal"}
 			continue
 		}
+		if b.mapOrder {
+			chain.SetMapIterOffset((i + 3*b.blockNo) % 8)
+		}
 		out.results[i] = r.n.Exec(blk, paths[i], hook)
+		if b.mapOrder {
+			chain.SetMapIterOffset(-1)
+		}
 	}
+	b.blockNo++
 	return out, nil
 }
 
